@@ -4,6 +4,7 @@ package main
 
 import (
 	"fmt"
+	"go/types"
 	"regexp"
 	"sort"
 	"strings"
@@ -325,6 +326,7 @@ func checkC17(c *Ctx, e *Env) {
 	c.Count("query_methods", nQ)
 	c.Count("list_scans", nList)
 	importObligations(c, e, checkC15, "C15", "C17.IRI", "by-IRI queries#parser-agrees-with-encoder", "the queries keyed by an IRI resolve it with ParseIRI; they find the record of every anchored hash only if the parser accepts exactly what the encoders write", func(o *Oblig) bool { return o.Rule == "C15.CODEC" })
+	ruleTimestampConverters(c, e.Model("x/ecocredit"))
 	c.Min("query methods explored", 45, nQ)
 	c.Min("list scans matched", 30, nList)
 	rulePageAdapter(c, e)
@@ -507,4 +509,81 @@ func rulePageAdapter(c *Ctx, e *Env) {
 		}
 		c.Check(ok, "C17.PAGE", "PageReqToOrmPaginate", p.Pos(f2.Pos()), "returns ormlist.Paginate(PageReqToCosmosAPILegacy(pg))")
 	}
+}
+
+// ---- CONV: the timestamp converters every query renders stored dates with ------------------------------
+//
+// The query rules treat ProtobufToGogoTimestamp(x) / GogoToProtobufTimestamp(x) as "the same instant in the
+// other representation". Confirmed by exploring their bodies: nil exactly for a nil argument, otherwise a
+// value whose Seconds and Nanos are the argument's. (A converter that maps the zero timestamp to nil makes
+// every query drop a date the state holds — the Unix epoch is a valid batch start date.)
+func ruleTimestampConverters(c *Ctx, m *Model) {
+	p := m.P
+	n := 0
+	for _, name := range []string{"ProtobufToGogoTimestamp", "GogoToProtobufTimestamp"} {
+		fn := findFn(m, "types/v2", name)
+		if fn == nil || len(fn.Params) != 1 {
+			c.Undecide("C17.CONV", name, "-", "converter not found")
+			continue
+		}
+		n++
+		x := NewExplorer(m)
+		pt, isPtr := fn.Params[0].Type().(*types.Pointer)
+		if !isPtr {
+			c.Undecide("C17.CONV", name, p.Pos(fn.Pos()), "converter does not take a pointer")
+			continue
+		}
+		outs := x.Explore(fn, []Val{&SymPtr{Base: "ts", T: pt.Elem()}})
+		bad, seenNil, seenVal := "", false, false
+		for _, o := range outs {
+			if o.Kind != exitReturn || len(o.Rets) != 1 {
+				if o.Kind == exitLoopback {
+					bad = "the converter contains a loop"
+				}
+				continue
+			}
+			st := o.St
+			argNil, known := st.known("Nil(&ts)")
+			if !known {
+				argNil, known = st.known("Nil(ts)")
+			}
+			ret := st.canon(o.Rets[0])
+			switch {
+			case ret == "nil":
+				seenNil = true
+				if !known || !argNil {
+					bad = "returns nil for a non-nil argument on path {" + strings.Join(st.facts, " ") + "}: a stored timestamp is rendered as absent"
+				}
+			default:
+				seenVal = true
+				if known && argNil {
+					bad = "returns a value for a nil argument"
+				}
+				rp, isP := o.Rets[0].(*Ptr)
+				var ro *Obj
+				if isP {
+					ro = st.mem[rp.O]
+				}
+				if ro == nil {
+					bad = "the result " + ret + " is not a freshly built timestamp"
+					break
+				}
+				sec, nano := "", ""
+				if v, has := ro.F[rp.Path+".Seconds"]; has {
+					sec = st.canon(v)
+				}
+				if v, has := ro.F[rp.Path+".Nanos"]; has {
+					nano = st.canon(v)
+				}
+				if sec != "ts.Seconds" || nano != "ts.Nanos" {
+					bad = fmt.Sprintf("the result carries Seconds=%q Nanos=%q, required the argument's", sec, nano)
+				}
+			}
+		}
+		if bad == "" && !(seenNil && seenVal) {
+			bad = "expected one nil-returning and one value-returning path"
+		}
+		c.Check(bad == "", "C17.CONV", name, p.Pos(fn.Pos()), name+": nil exactly for nil, otherwise Seconds and Nanos copied "+bad)
+	}
+	c.Count("timestamp_converters", n)
 }
